@@ -48,6 +48,45 @@ CLAIMS = {
     note="Scoped to TypeRegistry; Rule.__origin_transformer__ memoisation at declaration time is documented behaviour.",
     technique="write/invalidate pairing on the CFG, idiom table for order maintenance, guard-fact polarity checks",
     ref="DESIGN.md 3/C16"),
+ "C02": dict(
+    text="Static: the reject condition of every strict validator named in Rule.__constraints__, collected from the "
+         "branch facts of its raise statements and normalised (negations, operand order, len(str(v))), equals the "
+         "documented relation (gt >, ge >=, lt <, le <=, length ==, max_length <=, min_length >=, max_digits <=, "
+         "decimal_places <=, regex full match, const equality + type-exactness, enum membership, multiple_of remainder, "
+         "unique_items, contains counts) (R02a); accept paths return the input unchanged except the documented "
+         "normalisers (R02b); isinstance answers True only after isinstance(obj, origin) and a successful parse (R02c); "
+         "Field/apply accept every constraint keyword and forward it under its own name (R02d).",
+    note="Undecided: digit counting in _parse_decimal, multiple_of on floats, NaN (total-order normalisation on purpose).",
+    technique="path-condition extraction per validator + operator-table comparison, dominance checks, keyword-table agreement",
+    ref="DESIGN.md 3/C02"),
+ "C06": dict(
+    text="Static sibling agreement of the two lookup strategies (discovered as the callees of the strategy conditional): "
+         "per action the guard vector - admissible value classes of every Options attribute tested on the way, policy "
+         "literals, polarity of the field predicates, closed under summaries of is_required / is_no_input / "
+         "parse_addition read from their source - is identical in both (R06a); the alias-conflict comparison compares "
+         "raw with raw (R06b); the selector is exclusive, passes identical arguments, returns the result unchanged (R06c).",
+    note="Undecided: equality of results in general (needs differential execution); ordering of result keys.",
+    technique="sibling cross-check by must-fact guard vectors over a finite value-class domain with callee summaries",
+    ref="DESIGN.md 3/C06"),
+ "C09": dict(
+    text="Static dataflow over the four branches of logical_parse (discovered from the combinator literal tested): in "
+         "| ^ ~ every conversion receives the original input, & threads the running value (R09a); ~ never hands back a "
+         "reassigned input, | and ^ return the exact-type guarded input or a conversion of the original input (R09b); "
+         "error discipline per branch, no return inside the ^ loop (R09c); operator methods build the combinator they "
+         "denote, reflected operators keep operand order, double negation / dedupe / Any / collapse / flatten are "
+         "present (R09d).",
+    note="Undecided: 'accepts exactly when at least one accepts' as a relation over inputs.",
+    technique="reaching definitions of the conversion subject per branch, provenance of returned values, guard facts",
+    ref="DESIGN.md 3/C09"),
+ "C18": dict(
+    text="Static: route tested None-exactly, depth inherited, +1 on the no-route branch only, compared with > (R18a); "
+         "every context.enter passes a non-None route and enter() chains context/route/options (R18b); data-class "
+         "contexts are created with the caller's context along every hop (R18c); each staged retry of the union is "
+         "guarded so that it is skipped when the current options already include the stage's flags - truth table over "
+         "the guard - with a final unconditional stage (R18d).",
+    note="Undecided: the asymptotic bound as a measured quantity.",
+    technique="None-exactness lint on the route parameter, call-chain argument flow, finite truth-table evaluation of guards",
+    ref="DESIGN.md 3/C18"),
 }
 
 NOT_APPLICABLE = {
